@@ -582,6 +582,60 @@ theorem inv_empty : Inv (fun _ => none) { first := 1, latest := 0, root := fun _
   share := by intro v id hv; have := hv.1; have := hv.2; simp only at *; omega
   bound := by intro k hk; simp at hk
 
+/-! ### `DeleteVersionsFrom` -/
+
+/-- **a rollback keeps the root records right**: versions below `n` stay as they are; when none survives
+    the store is empty again -/
+theorem inv_deleteFrom (s : Store) (w : World) (h : Inv s w) (n : Nat) (hn : n ≤ w.latest + 1) :
+    Inv (deleteFrom s w.first n)
+      (if n ≤ w.first then { first := 1, latest := 0, root := fun _ => none, nodes := fun _ => [] }
+       else { w with latest := n - 1 }) := by
+  unfold deleteFrom
+  by_cases hall : n ≤ w.first
+  · simp only [hall, if_true]; exact inv_empty
+  · simp only [hall, if_false]
+    have hsub : ∀ x, ({ w with latest := n - 1 } : World).retained x → w.retained x ∧ x < n := by
+      intro x hx
+      have h1 := hx.1
+      have h2 := hx.2
+      simp only at h1 h2
+      exact ⟨⟨h1, by omega⟩, by omega⟩
+    have hkeep : ∀ k : NKey, k.1 < n → (if n ≤ k.1 then none else s k) = s k := by
+      intro k hk
+      have : ¬ n ≤ k.1 := by omega
+      simp [this]
+    refine
+      { recEmpty := fun x hx hr => by rw [hkeep (x, 1) (hsub x hx).2]; exact h.recEmpty x (hsub x hx).1 hr
+        recOwn := fun x hx hr => by rw [hkeep (x, 1) (hsub x hx).2]; exact h.recOwn x (hsub x hx).1 hr
+        recRef := fun x id hx hr hid => by
+          rw [hkeep (x, 1) (hsub x hx).2]; exact h.recRef x id (hsub x hx).1 hr hid
+        rootIn := fun x id hx hr => h.rootIn x id (hsub x hx).1 hr
+        emptyNodes := fun x hx hr => h.emptyNodes x (hsub x hx).1 hr
+        stored := ?_
+        gone := ?_
+        nonce1 := fun x id hx hm h1 hf => h.nonce1 x id (hsub x hx).1 hm h1 hf
+        share := fun x id hx hx1 hm hle => h.share x id (hsub x hx).1 (hsub _ hx1).1 hm hle
+        bound := ?_ }
+    · intro x id hx hm
+      obtain ⟨hr, hxn⟩ := hsub x hx
+      have hst := h.stored x id hr hm
+      refine ⟨?_, hst.2⟩
+      have hk : (phys w.first id).1 < n := by
+        have := hst.2.2
+        unfold phys; split <;> simp <;> omega
+      rw [hkeep _ hk]; exact hst.1
+    · intro x hx
+      by_cases hxn : n ≤ x
+      · simp [hxn]
+      · rw [hkeep (x, 1) (by simpa using hxn)]
+        apply h.gone x
+        intro hc; apply hx
+        exact ⟨hc.1, by simp only; omega⟩
+    · intro k hk
+      by_cases hkn : n ≤ k.1
+      · simp [hkn] at hk
+      · simp only; omega
+
 /-- the states reached from the empty store by commits and deletions of the lowest version, each with the
     facts about the trees that the tree layer guarantees (C01 / C04: new nodes are keyed by the new version,
     older nodes of the new tree belong to the previous version, the orphans are exactly the nodes the next
@@ -600,11 +654,17 @@ inductive Reach : Store → World → Prop where
       Reach s w → w.first < w.latest →
       (∀ id, id ∈ os ↔ id ∈ w.nodes w.first ∧ id ∉ w.nodes (w.first + 1)) →
       Reach (deleteVersion s w.first os) { w with first := w.first + 1 }
+  | rollback (s : Store) (w : World) (n : Nat) :
+      Reach s w → n ≤ w.latest + 1 →
+      Reach (deleteFrom s w.first n)
+        (if n ≤ w.first then { first := 1, latest := 0, root := fun _ => none, nodes := fun _ => [] }
+         else { w with latest := n - 1 })
 
 theorem reach_inv (s : Store) (w : World) (h : Reach s w) : Inv s w := by
   induction h with
   | empty => exact inv_empty
   | save s w v news rk r ns _ hv n1 n2 n3 n4 n5 ih => exact inv_save s w ih v hv news rk r ns n1 n2 n3 n4 n5
   | prune s w os _ hlt hos ih => exact inv_deleteVersion s w ih hlt os hos
+  | rollback s w n _ hn ih => exact inv_deleteFrom s w ih n hn
 
 end Iavl.Roots
